@@ -49,6 +49,37 @@ def denoteReduceFun (f : String) (e eo : Expr) : E (Tensor Cell) :=
     | some cs => pure ⟨shapeOf eo, cs⟩
     | none => throw "reduce: an axis is unassigned, or the output is not fully defined"
 
+/-! ### dot -/
+
+/-- The contracted axes of a dot: bracketed axes of all inputs, in order of first occurrence. -/
+def dotMarked (ins : List (List Dim × List Nat)) : List (String × Nat) :=
+  axesOf ((ins.flatMap (fun p => Dim.leavesL p.1)).filter (·.marked))
+
+/-- The element of input `q.2` (view and shape `q.1`) that enters the product for `σ` (output axes) and `τ`
+(contracted axes): an axis contracted elsewhere may occur un-bracketed here, so `τ` is consulted first. -/
+def dotFactor (σ τ : Assign) (q : (List Dim × List Nat) × Nat) : Option Cell :=
+  match inputAssign (τ ++ σ) τ (Dim.leavesL q.1.1) with
+  | some a => cellAt q.1.1 q.1.2 q.2 a
+  | none => none
+
+def dotTerm (ins : List (List Dim × List Nat)) (σ τ : Assign) : Option Cell :=
+  (mapOpt (dotFactor σ τ) ins.zipIdx).map mkProd
+
+def dotArgs (ins : List (List Dim × List Nat)) (σ : Assign) : Option (List Cell) :=
+  mapOpt (dotTerm ins σ) (assignments (dotMarked ins))
+
+def dotX (ins : List (List Dim × List Nat)) (σ : Assign) : Option Cell := (dotArgs ins σ).map (mkRed "sum")
+
+def dotCells (ins : List (List Dim × List Nat)) (vo : List Dim) (so : List Nat) : Option (List Cell) :=
+  genCells (dotX ins) vo so
+
+def denoteDotFun (exprsIn : List Expr) (exprOut : Expr) : E (Tensor Cell) :=
+  if !(Expr.concatFreeL exprsIn && exprOut.concatFree) then throw "concatenation not allowed here"
+  else
+    match dotCells (exprsIn.map (fun e => (rootDims e, shapeOf e))) (rootDims exprOut) (shapeOf exprOut) with
+    | some cs => pure ⟨shapeOf exprOut, cs⟩
+    | none => throw "dot: an axis is unassigned, or the output is not fully defined"
+
 /-! ### re-canonicalisation after a substitution -/
 
 /-- Sort the arguments of an application again (what `mkRed` does for the reduction symbol): substituting
